@@ -29,9 +29,11 @@ class Potential_Form_Registry(object):
        :param register_pymath_functions: If `True` make functions from the python math module available in cexprtk expressions."""
 
     self._potential_forms = {}
+    self._standard_labels = set()
 
     if register_standard:
       self._potential_forms.update(self._register_standard())
+      self._standard_labels = set(self._potential_forms)
 
     self._potential_forms.update(self._build_table_forms(cfg.table_form))
 
@@ -78,6 +80,10 @@ class Potential_Form_Registry(object):
       if not name in potential_forms:
         pf = Existing_Potential_Form(name, potential_form)
         potential_forms[name] = pf
+      elif not name in self._standard_labels:
+        # The label is taken by a table form or a [Potential-Form] entry, which would silently replace a standard
+        # potential form that only exists in the potentialforms module (as.buck4).
+        raise Potential_Form_Registry_Exception("The potential form '{0}' has the same label as a standard potential form".format(name))
 
   def _build_potential_forms(self, definitions):
     potential_forms = {}
